@@ -138,6 +138,20 @@ Theorem C15_code_satisfies_monitor_all_delays :
 Proof. exact ho_code_tie. Qed.
 Print Assumptions C15_code_satisfies_monitor_all_delays.
 
+(** the form applied inside every '*_model' case file of harness/c15.py (theorem [monitor_ok] there), from the
+    statement of its exploration theorem [case_ok] *)
+Theorem C15_code_trace_implies_monitor_all_delays :
+  forall d mid alphabet (tx rx : nat) (g p : bool) (w : BinNums.N) (K : Z) (strict : bool),
+  (forall ins, admissible (ho_rstep tx g p w) alphabet (fun _ _ => true) (ho_init tx rx) ins ->
+     traceA (sstep d mid) (power_up_s d) ins = traceB (ho_rstep tx g p w) (ho_init tx rx) ins) ->
+  forallb (wf_in p) alphabet = true ->
+  Z.of_nat (Nat.max tx rx) <= K ->
+  forall ins, Forall (fun i => In i alphabet) ins ->
+    Forall (fun o => o = okout)
+           (traceA (mstep_s d mid (chan_monitor K strict)) (power_up_s d, [0; 0; 0; 0]) ins).
+Proof. exact ho_traces_tie. Qed.
+Print Assumptions C15_code_trace_implies_monitor_all_delays.
+
 (** ... and the emitted VHDL hands over exactly once, in order, unmodified, on its ports *)
 Theorem C15_code_exactly_once_all_delays :
   forall d mid alphabet fuel (tx rx : nat) (g : bool) (w : BinNums.N),
